@@ -83,6 +83,10 @@ def run(case, stop_on=('unpred', 'skip'), quirks=()):
     res = Result()
     res.M, res.pre = M, pre
     prev = pre
+    by = e1.bystander_check()
+    if by:
+        res.status, res.diffs, res.post, res.exc = 'ok', by, posts[-1] if posts else pre, None
+        return res
     for i, post in enumerate(posts):
         res.step = i
         st, detail = rstep.step(M)
@@ -129,5 +133,24 @@ def run(case, stop_on=('unpred', 'skip'), quirks=()):
         if d:
             res.diffs = d
             return res
+        if i + 1 < len(posts) and (M.unknown or M.unknown_bits or M.unknown_mem):
+            # an UNKNOWN value was produced and more steps follow: continue from the value armulator chose (any value is architecturally allowed),
+            # otherwise a later instruction that consumes it would be compared against a different operand
+            for k in M.unknown:
+                if k in post:
+                    M.s[k] = post[k]
+            for k, ub in M.unknown_bits.items():
+                if k in post and isinstance(post[k], int):
+                    M.s[k] = (M.s[k] & ~ub) | (post[k] & ub)
+            if M.unknown_mem:
+                for j, (b, e, arr) in enumerate(M.mem):
+                    got = post.get('mem%d' % j)
+                    if got is not None and len(got) == len(arr):
+                        for (aid, off) in [x for x in M.unknown_mem if x[0] == id(arr)]:
+                            arr[off] = got[off]
+            M.unknown.clear()
+            M.unknown_bits.clear()
+            M.unknown_mem.clear()
+            M.thumb = bool((M.s['cpsr'] >> 5) & 1)
         prev = post
     return res
